@@ -42,11 +42,3 @@ Definition check_case (c : case) : bool :=
   t9_gen_ok && wf_graph (c_pre c) && wf_graph (c_post c) &&
   let '(s', r) := model_run c in
   outcome_eqb r (c_outcome c) && graph_equiv (sg s') (c_post c).
-
-(* the property itself evaluated by the model on the implementation's two snapshots (a second,
-   model-independent-of-the-call view used in the evidence): failing => equal snapshots *)
-Definition impl_atomic (c : case) : bool :=
-  match c_outcome c with
-  | None => true
-  | Some _ => graph_equiv (c_pre c) (c_post c)
-  end.
